@@ -79,6 +79,9 @@ FN_POOL = {
     "inc_re": {"type": "include_fields", "fields": ["^[fg]1$", "^f4"], "mode": "re"},
     "app_m0": {"type": "processing_item_applied", "processing_item_id": "m0"},
     "st_kv": {"type": "processing_state", "key": "k", "val": "v"},
+    # patterns that also match the empty string: a keyword item has no field name, nothing matches it
+    "inc_re_e": {"type": "include_fields", "fields": ["^(?!f1).*", "[A-Z]*$"], "mode": "re"},
+    "exc_re_e": {"type": "exclude_fields", "fields": ["^(?!f[12]).*$"], "mode": "re"},
 }
 
 
@@ -175,6 +178,8 @@ class Model:
                 return any(re.match(p, name) for p in c["fields"])
             return name in c["fields"]
         if t == "exclude_fields":
+            if c.get("mode") == "re":
+                return not (name is not None and any(re.match(p, name) for p in c["fields"]))
             return not (name is not None and name in c["fields"])
         if t == "processing_item_applied":
             return name is not None and c["processing_item_id"] in self.field_applied.get(name, set())
@@ -548,11 +553,77 @@ def judge_G(res, st, pre, groups):
         add_violation(res, "G:marker-set-differs-after-item-replaced-by-group:" + ("with-hf" if hf else "without-hf"), case, sorted(exp), sorted(got))
 
 
+# ---- sub-space K: rule conditions evaluated on correlation rules (log source = that of any transitively referenced rule)
+def _k_docs():
+    def r(n, product):
+        return {"title": f"r{n}", "name": f"r{n}", "logsource": {"category": "process_creation", "product": product}, "detection": {"sel": {"f": n}, "condition": "sel"}}
+
+    def c(n, refs):
+        return {"title": f"c{n}", "name": f"c{n}", "correlation": {"type": "event_count", "rules": refs, "timespan": "5m", "group-by": ["user"], "condition": {"gte": 1}}}
+
+    # c1 -> r1(windows); c2 -> c1; c3 -> r2(linux); c4 -> c3, c2; c5 -> c2 (chain of depth 3)
+    return [r(1, "windows"), r(2, "linux"), c(1, ["r1"]), c(2, ["c1"]), c(3, ["r2"]), c(4, ["c3", "c2"]), c(5, ["c2"])]
+
+
+K_PRODUCTS = {"r1": {"windows"}, "r2": {"linux"}, "c1": {"windows"}, "c2": {"windows"}, "c3": {"linux"}, "c4": {"windows", "linux"}, "c5": {"windows"}}
+K_POOL = {"ls_win": RULE_POOL["ls_win"], "ls_lin": RULE_POOL["ls_lin"], "is_rule": RULE_POOL["is_rule"], "is_corr": RULE_POOL["is_corr"]}
+
+
+def space_K(tier):
+    yield None
+    for n in K_POOL:
+        for neg in (False, True):
+            yield ("list", [n], "and", neg)
+    for a, b in itertools.combinations(sorted(K_POOL), 2):
+        for linking in ("and", "or"):
+            for neg in (False, True):
+                yield ("list", [a, b], linking, neg)
+    for t in T.trees_upto(2, sorted(K_POOL)[:3]):
+        if T.count_ops(t) >= 1:
+            yield ("expr", t, False)
+
+
+def judge_K(res, st, group, order):
+    from sigma.collection import SigmaCollection
+    from sigma.processing.pipeline import ProcessingPipeline
+
+    case = {"sub": "K", "group": repr(group), "order": order}
+    res["evaluations"] += 1
+    st.transition(1)
+    item = {"id": "judged", "type": "set_custom_attribute", "attribute": "marked", "value": "yes"}
+    item.update(group_yaml("rule", group, K_POOL))
+    docs = _k_docs()
+    if order == "reversed":
+        docs = docs[::-1]
+    try:
+        coll = SigmaCollection.from_dicts(copy.deepcopy(docs))
+        pipe = ProcessingPipeline.from_dict({"name": "c13k", "priority": 1, "transformations": [item]})
+        got = set()
+        for rule in coll.rules:
+            pipe.apply(rule)
+            if rule.custom_attributes.get("marked") == "yes":
+                got.add(rule.title)
+    except Exception as e:
+        add_violation(res, f"K:exception:{type(e).__name__}", case, "applies", repr(e)[:200])
+        return
+
+    def leaf(title):
+        return lambda n: {"ls_win": "windows" in K_PRODUCTS[title], "ls_lin": "linux" in K_PRODUCTS[title], "is_rule": title.startswith("r"), "is_corr": title.startswith("c")}[n]
+
+    exp = {t for t in K_PRODUCTS if eval_group(group, leaf(t))}
+    st.state(["K", sorted(got)])
+    res["outcomes"].add(h64(["K", sorted(got)]))
+    if group is not None:
+        res["nontrivial"].add(h64(case))
+    if got != exp:
+        add_violation(res, "K:rule-condition-on-correlation-rules:marker-set-differs", case, sorted(exp), sorted(got))
+
+
 NSH = 64
 
 
 def plan(tier, seed):
-    return [("G", i) for i in range(4)] + [("X", i) for i in range(8)] + list(range(NSH))
+    return [("G", i) for i in range(4)] + [("X", i) for i in range(8)] + [("K", 0)] + list(range(NSH))
 
 
 def run_shard(shard, tier, seed):
@@ -563,6 +634,12 @@ def run_shard(shard, tier, seed):
             if idx % 4 == shard[1]:
                 st.history()
                 judge_G(res, st, pre, groups)
+        return res
+    if isinstance(shard, (tuple, list)) and shard[0] == "K":
+        for group in space_K(tier):
+            for order in ("given", "reversed"):
+                st.history()
+                judge_K(res, st, group, order)
         return res
     if isinstance(shard, (tuple, list)) and shard[0] == "X":
         for idx, (pre, marker, groups) in enumerate(space_X(tier)):
@@ -589,6 +666,9 @@ def run_shard(shard, tier, seed):
 def replay(case):
     res = new_result()
     st = E.Stats(res)
+    if case.get("sub") == "K":
+        judge_K(res, st, eval(case["group"]), case["order"])
+        return res["violations"]
     if case.get("sub") == "G":
         judge_G(res, st, tuple(case["pre"]), eval(case["groups"]))
         return res["violations"]
